@@ -36,7 +36,12 @@ class Builder:
         self.mark += 1
         tagtxt = "[m%d]" % self.mark
         if multi:
-            text = "%d-%s %s\r\n continued\r\n%d end" % (code, words, tagtxt, code)
+            # body lines of the RFC 959 multi-line form: indented text, a blank line, digits that are not the end line,
+            # the same code with a hyphen, another code with a space
+            body = self.rng.choice([[" continued"], [""], [" continued", "", " more"], ["%d-still going" % code],
+                                    ["%d is another code" % (code + 1 if code < 599 else 100)], ["  %d indented" % code],
+                                    ["12", "", ""], ["-"]])
+            text = "\r\n".join(["%d-%s %s" % (code, words, tagtxt)] + body + ["%d end" % code])
         else:
             text = "%d %s %s" % (code, words, tagtxt)
         return R(code, text)
